@@ -114,6 +114,67 @@ def check_single_histories(h: Harness):
         h.count("single:re-presented")
 
 
+# monotone injective re-scalings of the fitness values: the trackers may depend on the ORDER of
+# the values only (C12 speaks of better / at least as good), never on their magnitude or spacing
+SCALES = [
+    ("2e6+k*5e-4", lambda k: 2000000.0 + k * 0.0005),
+    ("1+k*ulp", lambda k: 1.0 + k * 2.0 ** -52),
+    ("1e12+k", lambda k: 1e12 + k),
+    ("k*1e-300", lambda k: k * 1e-300),
+    ("-1e9+k*1e-6", lambda k: -1e9 + k * 1e-6),
+    ("k*1e-25", lambda k: k * 1e-25),
+]
+
+
+def check_scale_invariance(h: Harness):
+    """the same history of RANKS under different monotone scalings must give the same flags and
+    the same tracked best as under the identity scaling (which is compared with the model above)"""
+    import itertools as it
+    site = "Problem.is_better"
+    L = h.n(4, 6)
+    for n in range(2, L + 1):
+        for ranks in it.product((0, 1, 2, 3), repeat=n):
+            if len(set(ranks)) < 2:
+                continue
+            for minimize in (False, True):
+                ref, _ = run_single(ranks, minimize, "single")
+                ref_obs = ([r["best"] for r in ref.rows], [bool(r["is_best"]) for r in ref.rows])
+                for name, f in SCALES:
+                    vals = [f(k) for k in ranks]
+                    if len(set(vals)) != len(set(ranks)):
+                        continue
+                    rec, _ = run_single(vals, minimize, "single")
+                    obs = ([r["best"] for r in rec.rows], [bool(r["is_best"]) for r in rec.rows])
+                    h.seen(f"scale:{name}:{ranks}:{minimize}")
+                    if obs != ref_obs:
+                        h.fail(site, "depends-on-magnitude-not-order",
+                               f"single-objective tracker, minimize={minimize}: the history with ranks {list(ranks)} scaled by {name} "
+                               f"(values {vals}) reports best uids / flags {obs}, the same order of plain integers gives {ref_obs}",
+                               [list(ranks), name, minimize])
+                        break
+    # multi-objective: aggregates scaled through the user aggregate
+    for n in range(2, h.n(4, 5) + 1):
+        for ranks in it.product((0, 1, 2), repeat=n):
+            if len(set(ranks)) < 2:
+                continue
+            outs = []
+            for name, f in [("id", float)] + SCALES[:3]:
+                rec = Recording()
+                problem = MultiObjectiveProblem([False, False], lambda ph: [ph[1], 0.0], aggregate_fitness=lambda comps: comps[0])
+                tracker = MultiObjectiveProgressTracker(problem, SequentialEvaluator(), recorders=[rec])
+                for i, k in enumerate(ranks):
+                    tracker.evaluate([mk_ind(i, f(k))])
+                outs.append((name, [bool(r["is_best"]) for r in rec.rows], sorted(uid(x) for x in tracker.get_best_individuals())))
+            h.seen(f"scale-multi:{ranks}")
+            for name, flags, front in outs[1:]:
+                if (flags, front) != (outs[0][1], outs[0][2]):
+                    h.fail(site, "depends-on-magnitude-not-order",
+                           f"multi-objective tracker: ranks {list(ranks)} scaled by {name} give flags {flags} / front {front}, plain integers give {outs[0][1]} / {outs[0][2]}",
+                           [list(ranks), name])
+                    break
+    h.count("scale-invariance-histories")
+
+
 def run_multi(aggs, variant, batching, repeats=None):
     """Two objectives (first maximised, second minimised): components (a + d, d) have default aggregate a."""
     rec = Recording()
@@ -303,4 +364,5 @@ def run(h: Harness):
     check_single_histories(h)
     check_multi_histories(h)
     h.exhaustive = True
+    check_scale_invariance(h)
     check_searches(h)
